@@ -917,15 +917,7 @@ class Exec(object):
                 return VList(n, get=lambda i: base.get(n - 1 - i), et=base.et)
             raise Unsupported("slice step")
 
-        def clamp(x, default):
-            if x is None:
-                return default
-            x = toint(x)
-            x = z3.If(x < 0, x + n, x)
-            return z3.If(x < 0, 0, z3.If(x > n, n, x))
-        l = z3.simplify(clamp(lo, z3.IntVal(0)))
-        h = z3.simplify(clamp(hi, n))
-        ln = z3.simplify(z3.If(h > l, h - l, 0))
+        l, h, ln = slice_bounds(n, lo, hi)
         if isinstance(base, VList):
             return VList(ln, get=lambda i: base.get(z3.simplify(l + i)), et=base.et)
         # strings: registered split points give word-equation friendly pieces
@@ -1107,6 +1099,10 @@ class Exec(object):
         if isinstance(op, ast.Sub):
             return VInt(toint(a) - toint(b))
         if isinstance(op, ast.Mult):
+            if isinstance(a, (VStr, str)) and isinstance(b, (VInt, int)) or \
+                    isinstance(b, (VStr, str)) and isinstance(a, (VInt, int)):
+                sv, nv = (a, b) if isinstance(a, (VStr, str)) else (b, a)
+                return VStr(str_repeat_fn()(tostr(sv), toint(nv)))
             if isinstance(a, (VList, list)) and isinstance(b, (VInt, int)):
                 a = self.iter_list(a, st, node)
                 if a.conc is not None and len(a.conc) == 1:
@@ -1651,6 +1647,20 @@ def spec_split(s, sep):
     return VList(SPLIT_LEN(st_, sp), get=lambda i: VStr(SPLIT_EL(st_, sp, i)), et=STR)
 
 
+_REP = None
+
+
+def str_repeat_fn():
+    """s * k for strings (recursive definition; k <= 0 gives '')"""
+    global _REP
+    if _REP is None:
+        f = z3.RecFunction("py_str_repeat", sym.StrS, IntS, sym.StrS)
+        s_, k_ = z3.String("rep_s"), z3.Int("rep_k")
+        z3.RecAddDefinition(f, [s_, k_], z3.If(k_ <= 0, z3.StringVal(""), z3.Concat(s_, f(s_, k_ - 1))))
+        _REP = f
+    return _REP
+
+
 def int_to_str(t):
     return INT_TO_STR(t)
 
@@ -1718,6 +1728,27 @@ def list_concat(a, b):
         return VList.from_py(a.conc + b.conc)
     n = a.n
     return VList(a.n + b.n, get=lambda i: vite(VBool(i < n), a.get(i), b.get(i - n)), et=a.et or b.et)
+
+
+def slice_bounds(n, lo, hi):
+    """CPython's normalisation of a slice [lo:hi] (step 1) over a sequence of length n:
+    returns (start, stop, length) as simplified terms"""
+    def clamp(x, default):
+        if x is None:
+            return default
+        x = toint(x)
+        x = z3.If(x < 0, x + n, x)
+        return z3.If(x < 0, 0, z3.If(x > n, n, x))
+    l = z3.simplify(clamp(lo, z3.IntVal(0)))
+    h = z3.simplify(clamp(hi, n))
+    ln = z3.simplify(z3.If(h > l, h - l, 0))
+    return l, h, ln
+
+
+def str_slice(t, lo, hi):
+    """the term the executor builds for t[lo:hi] on strings (without split-point rewriting)"""
+    l, h, ln = slice_bounds(z3.Length(t), lo, hi)
+    return z3.SubString(t, l, ln)
 
 
 def _no_elem(i):
